@@ -8,6 +8,14 @@ real ``gemato.find_top_level.find_top_level_manifest`` on a chain materialised o
 and is compared with ``reference()``, an upward walk written from the property statement
 that reads Manifest texts with the reference parser (gverif.refmanifest) only.
 
+Family F ("subpath") drops the assumption that an IGNORE line is written with its own Manifest
+in mind: every level, the start directory included, may IGNORE ANY contiguous run of components
+of the start path (single names and multi-component paths; names of directories above, at - the
+Manifest's own directory name - or below the Manifest), next to levels whose Manifest has no
+IGNORE line at all, and the chain's directory names range over every equality pattern (x/x/y,
+x/y/x, ...), so that one IGNORE text can mean something relative to a level other than the one it
+stands in.  What each such line means is decided by reference() alone.
+
 Chain directories form a fixed skeleton; the DFS assigns one level per node, so each
 node costs one Manifest write + one unlink.  The walk from depth s never looks below s,
 hence "every start depth of every chain" == "every chain of length s started at s".
@@ -52,9 +60,19 @@ RULE = ('every directory chain r/c1/../cs started at its deepest level s (the wa
         'directory itself, while all other levels range over {none, plain, plain+exact, gz}.  Family E '
         '("forms", s<=3): start path spelled with trailing slash / relative to cwd / "." .  Family D '
         '("mlink", s<=3): Manifest is a symlink to a file on a second real filesystem, with and '
-        'without IGNORE.  Every chain is crossed with allow_compressed off/on x {no device boundary, '
+        'without IGNORE.  Family F ("subpath"): every level 0..s - the start directory included - '
+        'independently takes one option of {no Manifest, plain without IGNORE} + plain x {IGNORE p : p any '
+        'contiguous run ca/../cc (1<=a<=c<=s) of components of the start path, i.e. every name occurring '
+        'anywhere on the path and every multi-component sub-path, whether it lies above, at (the '
+        'Manifest\'s own directory name) or below that Manifest} + gz x G, for every equality pattern '
+        'of the chain\'s directory names P (all set partitions of the s positions: x/y/z, x/x/y, x/y/x, '
+        'y/x/x, x/x/x; equal runs listed once); quick: s<=2 with all P and G = {no IGNORE} + all runs, s=3 '
+        'with all names distinct and G = {no IGNORE}; thorough: s<=2 as quick, s=3 with all P and G = {no '
+        'IGNORE} + one-component runs, s=4 with all names distinct and no compressed option; crossed '
+        'with allow_compressed off/on (s=4: off) x {no boundary, boundary above level b with allow_xdev '
+        'off for every b in 1..s}.  Every chain of the other families is crossed with allow_compressed off/on x {no device boundary, '
         'boundary directly above level b for every b in 1..s} x allow_xdev off/on (family C: '
-        'allow_xdev on only for b in {none, s}).  A case = (family, option labels of all levels, '
+        'allow_xdev on only for b in {none, s}).  A case = (family, name pattern (F), option labels of all levels, '
         'start depth, boundary, allow_xdev, allow_compressed, path form); cases are distinct by '
         'construction and counted through their digests (finish() checks digests == calls).  '
         'Non-trivial = reference verdict definite, at least one Manifest file on the chain, and at '
@@ -81,7 +99,13 @@ ASSUMPTIONS = [
     'entry for the start path that precedes an IGNORE covering it; with crossing disallowed and a '
     'Manifest *file* on another device in a same-device directory, both "stop there" and "skip '
     'it" are accepted (the foreign Manifest itself is never accepted)',
-    'small scope: depth <= 4 with the full menu, depth 5-6 with a reduced menu, one boundary per case',
+    'small scope: depth <= 4 with the full menu, depth 5-6 with a reduced menu, one boundary per case; '
+    'family F (IGNORE of arbitrary sub-paths of the start path, repeated directory names): one IGNORE line '
+    'per Manifest, depth <= 3 quick / <= 4 thorough, repeated names only up to depth 2 quick / 3 thorough; '
+    'outside F all chain directory names are pairwise distinct',
+    'vacuity self-checks are taken over the complete space only: when the exploration is cut short (a shard '
+    'stops after 100 violations, the run after 32 such shards) they are skipped and a note says so - the run '
+    'then ends with VIOLATION lines, or with the runner\'s own NOT-decided error',
 ]
 
 MANIFEST_NAMES = ('Manifest', 'Manifest.gz', 'Manifest.bz2', 'Manifest.lzma', 'Manifest.xz')
